@@ -156,6 +156,23 @@ Theorem C15_other_sep_irrelevant : forall sep s s' t1 t2 od al,
 Proof. intros. split; [apply other_sep_irrelevant|apply get_tree_diff_seps_eq]. Qed.
 Print Assumptions C15_other_sep_irrelevant.
 
+(* Node classes: for Node and its subclasses the class-aware entry point get_tree_diff_cls false is
+   get_tree_diff; for BinaryNode trees (true) an answer, when there is one, is the same answer - the only
+   difference is the TreeError of a parent that would get a third child (reported, Example below). *)
+Theorem C15_node_class : forall sep sep2 t1 t2 od al,
+  get_tree_diff_cls false sep sep2 t1 t2 od al = get_tree_diff sep t1 t2 od al /\
+  forall l, get_tree_diff_cls true sep sep2 t1 t2 od al = Ret (Some l) ->
+            get_tree_diff sep t1 t2 od al = Ret (Some l).
+Proof. intros. split; [apply get_tree_diff_cls_node|apply get_tree_diff_cls_binary]. Qed.
+Print Assumptions C15_node_class.
+
+Example C15_binary_overflow_refuted :
+  let t1 := T None s_r [] [leaf s_b []; leaf s_bc []] in
+  let t2 := T None s_r [] [leaf s_x []] in
+  domain_C15 slash t1 t2 [] = true /\ lookalike_free t1 t2 = true /\
+  get_tree_diff_cls true slash slash t1 t2 true [] = Raise TreeError.
+Proof. vm_compute. repeat split. Qed.
+
 (* the second tree uses "-" and both trees contain the node "v-s": no diff *)
 Example C15_other_sep_instance :
   let t := T None s_r [] [leaf [118; 45; 115]%N []; leaf s_b []] in
